@@ -59,8 +59,12 @@ def checker (prop : String) : Option Checker :=
   match prop with
   | "C01" => some (stateless C01.check)
   | "C17" => some (stateless C17.check)
-  | "C06" => some (stateless C06.check)
-  | "C07" => some (stateless C07.check)
+  | "C06" => some ⟨Sys.St, {}, fun st n l =>
+      -- operation sequences on the pool, and (JSON lines) sessions on a running agent that come and go
+      if l.startsWith "{" then (sysChecker ["C06", "C01"]).step st n l else (st, [C06.check n l])⟩
+  | "C07" => some ⟨Sys.St, {}, fun st n l =>
+      -- allocator states and replayed random sources, and (JSON lines) UP-chosen and CP-chosen TEIDs on a running agent
+      if l.startsWith "{" then (sysChecker ["C07", "C01"]).step st n l else (st, [C07.check n l])⟩
   | "C08" => some ⟨Sys.St, {}, fun st n l =>
       -- token-level cases, and (JSON lines) PFD provisioning on a running agent
       if l.startsWith "{" then (sysChecker ["C08", "C01"]).step st n l else (st, [C08.check n l])⟩
